@@ -256,11 +256,9 @@ func (g *valGen) newClaims(kind string) (jwt.Claims, *signer) {
 		c := &jwt.OperatorClaims{}
 		g.fillValue(reflect.ValueOf(c).Elem())
 		c.Subject = g.kr.by["operator"].pub
-		if g.rng.Intn(2) == 0 {
-			c.AccountServerURL = ""
-		} else {
-			c.AccountServerURL = "https://example.com/jwt/v1"
-		}
+		// (white space at the end of a URL that still parses belongs to the value like any other character)
+		c.AccountServerURL = []string{"", "", "https://example.com/jwt/v1", "https://example.com/jwt/v1", "https://host:9090/jwt/v1 ",
+			"https://example.com/jwt/v1\u00a0", "https://example.com/a%20b/?q=1#frag ", "HTTPS://Example.COM/jwt/v1/"}[g.rng.Intn(8)]
 		cl, s = c, pick("operator")
 	case "account":
 		c := &jwt.AccountClaims{}
@@ -306,5 +304,51 @@ func (g *valGen) newClaims(kind string) (jwt.Claims, *signer) {
 		}
 		cl, s = c, pick("operator", "account", "user", "server", "cluster")
 	}
+	g.coincide(cl, s.pub, cl.Claims().Subject)
 	return cl, s
+}
+
+// coincide: now and then a text field of the claims (any depth) holds the very key that signs them, or the subject
+// key; and the issuer-account field of the kinds that have one names the signer itself
+func (g *valGen) coincide(cl interface{}, signerPub, subject string) {
+	if g.rng.Intn(3) == 0 {
+		var fields []reflect.Value
+		var walk func(v reflect.Value, depth int)
+		walk = func(v reflect.Value, depth int) {
+			if depth > 4 {
+				return
+			}
+			switch v.Kind() {
+			case reflect.Struct:
+				for i := 0; i < v.NumField(); i++ {
+					f := v.Type().Field(i)
+					switch f.Name {
+					case "Subject", "Issuer", "ID", "Type", "Version", "IssuedAt":
+						if depth <= 1 {
+							continue
+						}
+					}
+					if f.PkgPath == "" {
+						walk(v.Field(i), depth+1)
+					}
+				}
+			case reflect.String:
+				if v.CanSet() && v.Type().Name() == "string" {
+					fields = append(fields, v)
+				}
+			}
+		}
+		walk(reflect.ValueOf(cl).Elem(), 0)
+		if len(fields) > 0 {
+			f := fields[g.rng.Intn(len(fields))]
+			if g.rng.Intn(4) == 0 {
+				f.SetString(subject)
+			} else {
+				f.SetString(signerPub)
+			}
+		}
+	}
+	if f := reflect.ValueOf(cl).Elem().FieldByName("IssuerAccount"); f.IsValid() && f.Kind() == reflect.String && g.rng.Intn(4) == 0 {
+		f.SetString(signerPub)
+	}
 }
